@@ -621,6 +621,12 @@ func StructFieldsAsOptionsAction(explicitFields ...string) RewriteAction {
 				continue
 			}
 
+			// a field whose value the schema fixes is no option: the builder of the struct
+			// itself has none for it either
+			if field.Type.IsConcreteScalar() || field.Type.IsConstantRef() || (field.Type.IsRef() && schemas.ResolveToType(field.Type).IsConcreteScalar()) {
+				continue
+			}
+
 			fieldAssignment := ast.FieldAssignment(field)
 			// a field typed by a reference to a scalar is bound by the constraints of that scalar
 			if resolved := schemas.ResolveToType(field.Type); field.Type.IsRef() && resolved.IsScalar() {
